@@ -42,7 +42,7 @@ theorem OodInv.recOk {w w' : World} {R : Nat} (h : OodInv w w' R) (f : Nat) : Re
 
 /-- The "target vanished" write. -/
 theorem OodInv.vanish {w w' : World} {R : Nat} (h : OodInv w w' R) (f : Nat) (r : Rec) (hr : r = getRec w R f) :
-    OodInv w (setRec w' f { r with isGenerated := false, failed := some 0 }) R := by
+    OodInv w (setRec w' f { r with isGenerated := false, isOverride := false, failed := some 0 }) R := by
   refine ⟨h.1, h.2.1, fun g => ?_⟩
   by_cases hg : g = f
   · subst hg
@@ -52,9 +52,9 @@ theorem OodInv.vanish {w w' : World} {R : Nat} (h : OodInv w w' R) (f : Nat) (r 
       split <;> rfl
     · simp only [getRec, setRec, if_true]
       split <;> rfl
-  · have : (setRec w' f { r with isGenerated := false, failed := some 0 }).recs g = w'.recs g := by
+  · have : (setRec w' f { r with isGenerated := false, isOverride := false, failed := some 0 }).recs g = w'.recs g := by
       simp [setRec, hg]
-    have e : getRec (setRec w' f { r with isGenerated := false, failed := some 0 }) R g = getRec w' R g := by
+    have e : getRec (setRec w' f { r with isGenerated := false, isOverride := false, failed := some 0 }) R g = getRec w' R g := by
       simp only [getRec, this]
     rw [this, e]
     exact h.2.2 g
